@@ -73,6 +73,18 @@ func misuses() []misuse {
 		one("timestamp_format-duration", true, []string{"bad_field"}, noX(spec.FM("bad_field", 1, spec.Duration).With(func(a *spec.Ann) { a.TSFormat = 3 }))),
 		one("bytes_encoding-string", true, []string{"bad_field"}, noX(spec.F("bad_field", 1, spec.String).With(func(a *spec.Ann) { a.BytesEnc = 5 }))),
 		one("bytes_encoding-int", true, []string{"bad_field"}, noX(spec.F("bad_field", 1, spec.Int64).With(func(a *spec.Ann) { a.BytesEnc = 3 }))),
+		// every value of the annotation on a wrong field type, including the value that spells the default out
+		one("timestamp_format-string/value=rfc3339", true, []string{"bad_field"}, noX(spec.F("bad_field", 1, spec.String).With(func(a *spec.Ann) { a.TSFormat = 1 }))),
+		one("timestamp_format-int64/value=rfc3339", true, []string{"bad_field"}, noX(spec.F("bad_field", 1, spec.Int64).With(func(a *spec.Ann) { a.TSFormat = 1 }))),
+		one("timestamp_format-string/value=unix-millis", true, []string{"bad_field"}, noX(spec.F("bad_field", 1, spec.String).With(func(a *spec.Ann) { a.TSFormat = 3 }))),
+		one("timestamp_format-string/value=date", true, []string{"bad_field"}, noX(spec.F("bad_field", 1, spec.String).With(func(a *spec.Ann) { a.TSFormat = 4 }))),
+		one("bytes_encoding-string/value=base64", true, []string{"bad_field"}, noX(spec.F("bad_field", 1, spec.String).With(func(a *spec.Ann) { a.BytesEnc = 1 }))),
+		one("bytes_encoding-timestamp/value=base64", true, []string{"bad_field"}, noX(spec.FM("bad_field", 1, spec.Timestamp).With(func(a *spec.Ann) { a.BytesEnc = 1 }))),
+		one("bytes_encoding-string/value=base64-raw", true, []string{"bad_field"}, noX(spec.F("bad_field", 1, spec.String).With(func(a *spec.Ann) { a.BytesEnc = 2 }))),
+		one("bytes_encoding-string/value=base64url", true, []string{"bad_field"}, noX(spec.F("bad_field", 1, spec.String).With(func(a *spec.Ann) { a.BytesEnc = 3 }))),
+		one("bytes_encoding-string/value=base64url-raw", true, []string{"bad_field"}, noX(spec.F("bad_field", 1, spec.String).With(func(a *spec.Ann) { a.BytesEnc = 4 }))),
+		one("empty_behavior-scalar/value=preserve", true, []string{"bad_field"}, noX(spec.F("bad_field", 1, spec.String).With(func(a *spec.Ann) { a.EmptyBehavior = 1 }))),
+		one("empty_behavior-scalar/value=omit", true, []string{"bad_field"}, noX(spec.F("bad_field", 1, spec.String).With(func(a *spec.Ann) { a.EmptyBehavior = 3 }))),
 		one("flatten-repeated", true, []string{"bad_field"}, func(pkg string) ([]*spec.Field, []*spec.Message, []*spec.EnumDef, []*spec.Oneof) {
 			k, fq := kid(pkg)
 			return []*spec.Field{spec.FM("bad_field", 1, fq).Rep().With(func(a *spec.Ann) { a.Flatten = spec.B(true) })}, []*spec.Message{k}, nil, nil
